@@ -36,6 +36,8 @@ FLOORS['quick']['graph_exports'] = 20
 FLOORS['quick']['real_book_cases'] = 20
 FLOORS['quick']['formula_cells_overwritten'] = 100
 FLOORS['quick']['real_read_events'] = 1500
+for _tier in FLOORS:
+    FLOORS[_tier]['suite:tests'] = 2000          # the repository's own suite ran under the monitors
 ASSUMPTIONS = [
     'computed references (OFFSET / INDIRECT) are outside the statement and are not generated',
     'address strings are parsed by the harness itself (sheet!A1[:B2]); unbounded forms are matched by name',
@@ -305,6 +307,10 @@ def range_operator_workbook():
 
 
 def run(ctx):
+    if ctx.shard == ctx.nshards - 1:
+        # the repository's own test-suite as one more workload under the monitors (vp.suitemon)
+        from vp import suiteload
+        suiteload.run_suite(ctx)
     rng = ctx.rng
     i = 0
     if ctx.shard == 0:
@@ -346,6 +352,10 @@ def run(ctx):
 
 
 def replay(ctx, case):
+    if case.get('kind') == 'suite':
+        from vp import suiteload
+        suiteload.run_suite(ctx)
+        return
     import random
     if case.get('kind') == 'real-book':
         realbooks.c04_case(ctx, case['book'], case['case_seed'])
